@@ -166,7 +166,7 @@ def job_torque(with_current):
             cases = spec_torque(D, W, W0, TM)
         O.prove("torque:equals-documented-characteristic", cases_goal(cases, H.SI(T)), props=("C08", "C02", "C07"), outputs=[H.SI(T)])
         changed = [k for k, v in motor.__dict__.items() if before.get(k, None) is not v]
-        O.prove("torque:modifies-only-driving_torque", set(changed) <= {"_RotatingObject__driving_torque"},
+        O.prove("torque:modifies-only-driving_torque", len(changed) <= 1 and (not changed or motor.__dict__[changed[0]] is motor.driving_torque),
                 props=("C08", "C02"))
         if not with_current:
             O.prove("current:not-computable-without-current-data", motor.electric_current_is_computable is False,
@@ -185,7 +185,7 @@ def job_torque(with_current):
         ccases = spec_current(D, H.SI(T), TM, H.SI(q["i0"]), H.SI(q["im"]))
         O.prove("current:equals-documented-law", cases_goal(ccases, H.SI(I)), props=("C08", "C07", "C15"), outputs=[H.SI(I), H.SI(T)])
         changed = [k for k, v in motor.__dict__.items() if before.get(k, None) is not v]
-        O.prove("current:modifies-only-electric_current", set(changed) <= {"_DCMotor__electric_current"},
+        O.prove("current:modifies-only-electric_current", len(changed) <= 1 and (not changed or motor.__dict__[changed[0]] is motor.electric_current),
                 props=("C08",))
     tag = "with-current-data" if with_current else "without-current-data"
     return Job(f"motor.law[{tag}]", body, ("C08", "C02", "C07", "C14", "C15", "C17", "C19"),
